@@ -32,7 +32,7 @@ func typeName(t uint16) string {
 func checkLen(c lenCase) error {
 	m := c.M
 	w, err := wm.Encode(m)
-	if err != nil || len(w) > 65535 {
+	if err != nil || (len(w) > 65535 && !c.Compress) {
 		return nil // not packable: outside the domain
 	}
 	lib, err := wm.MsgToLib(m, c.Compress)
@@ -46,6 +46,9 @@ func checkLen(c lenCase) error {
 			return pbt.Errf("Pack ran out of buffer space on a packable message (compress=%v): %v", c.Compress, err)
 		}
 		return pbt.Errf("Pack failed on a packable message (compress=%v): %v", c.Compress, err)
+	}
+	if len(p) > 65535 {
+		return nil // does not fit a DNS message even compressed: outside the domain
 	}
 	hasPtr := c.Compress && len(p) < len(w)
 	special := false
@@ -64,6 +67,9 @@ func checkLen(c lenCase) error {
 	}
 	if len(w) > 16384 {
 		classes = append(classes, "beyond-16384")
+	}
+	if len(w) > 65535 {
+		classes = append(classes, "beyond-65535-uncompressed")
 	}
 	pbt.Note(append(p, byte(len(classes))), hasPtr || special, classes...)
 
@@ -109,25 +115,45 @@ func checkLen(c lenCase) error {
 	if c.Plain && ul != len(w) {
 		return pbt.Errf("plain message: uncompressed Len()=%d, uncompressed size %d", ul, len(w))
 	}
-	big := make([]byte, ul+1+int(m.ID%7))
-	pb, err := lib.PackBuffer(big)
-	if err != nil {
-		return pbt.Errf("PackBuffer(large buffer) failed: %v", err)
+	// Buffers of every interesting length (around the packed size, between the packed and the
+	// uncompressed size, around the uncompressed size) and with spare capacity behind their length
+	// (a pooled buffer re-sliced to [:n], the slice a previous PackBuffer returned): PackBuffer
+	// never fails for lack of room, gives the octets Pack gives, and works in place whenever the
+	// buffer is longer than the uncompressed length.
+	cl := len(p)
+	lens := []int{0, 1, 11, 12, 13, cl - 1, cl, cl + 1, cl + 2, cl + 3, cl + 4, cl + 6, cl + 9, cl + 13, cl + 20, (cl + ul) / 2, ul - 2, ul - 1, ul, ul + 1, ul + 2, ul + 1 + int(m.ID%7), ul + 300}
+	if ul > 4096 { // large messages: a rotating selection keeps the cost linear
+		var sel []int
+		for i := 0; i < 7; i++ {
+			sel = append(sel, lens[(int(m.ID)+i*5)%len(lens)])
+		}
+		lens = append(sel, ul+1)
 	}
-	if !bytes.Equal(pb, p) {
-		return pbt.Errf("PackBuffer(large buffer) produced different octets than Pack")
-	}
-	if len(pb) > 0 && &pb[0] != &big[0] {
-		return pbt.Errf("PackBuffer did not write into the caller's buffer of %d octets (uncompressed length %d, predicted %d)", len(big), len(w), ul)
-	}
-	// a buffer that is too small still works
-	small := make([]byte, int(m.ID)%(len(w)+1))
-	ps, err := lib.PackBuffer(small)
-	if err != nil {
-		return pbt.Errf("PackBuffer(small buffer of %d) failed: %v", len(small), err)
-	}
-	if !bytes.Equal(ps, p) {
-		return pbt.Errf("PackBuffer(small buffer) produced different octets than Pack")
+	arena := make([]byte, ul+400)
+	for _, l := range lens {
+		if l < 0 {
+			continue
+		}
+		caps := []int{l, max(l, cl+1), max(l, ul+1), ul + 400}
+		if ul > 4096 {
+			caps = []int{l, ul + 400}
+		}
+		for _, c2 := range caps {
+			for i := range arena {
+				arena[i] = 0xA5
+			}
+			buf := arena[:l:c2]
+			pb, err := lib.PackBuffer(buf)
+			if err != nil {
+				return pbt.Errf("PackBuffer(buffer of length %d, capacity %d) failed: %v (packed size %d, uncompressed length %d, compress=%v)", l, c2, err, cl, ul, c.Compress)
+			}
+			if !bytes.Equal(pb, p) {
+				return pbt.Errf("PackBuffer(buffer of length %d, capacity %d) produced different octets than Pack (packed size %d)", l, c2, cl)
+			}
+			if l > ul && len(pb) > 0 && &pb[0] != &buf[0] {
+				return pbt.Errf("PackBuffer did not write into the caller's buffer of %d octets (uncompressed length %d, predicted %d, compress=%v)", l, len(w), ul, c.Compress)
+			}
+		}
 	}
 	return nil
 }
@@ -152,6 +178,28 @@ func genPlain(t *rapid.T) lenCase {
 		}
 		n := 16384 - pre - 16 - rapid.IntRange(-60, 80).Draw(t, "d")
 		m.An = append([]wm.Rec{gen.PlainFiller(n)}, m.An...)
+	}
+	if gen.Rarely(t, 6) {
+		// a message past 64 KiB uncompressed that compresses to far less (a large RRset / zone chunk)
+		owner := gen.Name(t, gen.NameOpts{Plain: true, MaxLabs: 4, MaxLabel: 12})
+		n := rapid.IntRange(1900, 4300).Draw(t, "hugecount")
+		rec := gen.RecOfType(t, rapid.SampledFrom([]uint16{wm.TA, wm.TAAAA, wm.TNS, wm.TMX}).Draw(t, "hugetype"), &gen.Opts{Plain: true, NameGen: func(*rapid.T) wm.Name { return owner }})
+		rec.Name = append(wm.Name{[]byte("w")}, owner...).Clone()
+		if !rec.Name.Valid() {
+			rec.Name = owner.Clone()
+		}
+		big := make([]wm.Rec, n)
+		for i := range big {
+			big[i] = rec
+		}
+		switch rapid.IntRange(0, 2).Draw(t, "hugesec") {
+		case 0:
+			m.An = append(m.An, big...)
+		case 1:
+			m.Ns = append(m.Ns, big...)
+		default:
+			m.Ex = append(m.Ex, big...)
+		}
 	}
 	return lenCase{M: m, Compress: rapid.Bool().Draw(t, "compress"), Plain: true}
 }
